@@ -122,8 +122,11 @@ func runCheck(id, tier, only string) (code int) {
 		extra["packages_loaded"] = len(ctx.All)
 		extra["root_packages"] = ctx.Patterns
 		prop.Run(ctx, rep)
-		if tier == "thorough" && prop.Thorough != nil {
-			prop.Thorough(ctx, rep, extra)
+		if tier == "thorough" {
+			if prop.Thorough != nil {
+				prop.Thorough(ctx, rep, extra)
+			}
+			rules.SelfValidate(id, rep, extra)
 		}
 	}()
 	if only != "" {
